@@ -1075,3 +1075,60 @@ func c03TestInputs(repo string) (names []string, docs [][]byte) {
 	})
 	return
 }
+
+// ---------- systematic contexts: every optional-tag element before every kind of next token; every known
+// attribute on a spread of tags ----------
+
+var c03HashNameRe = regexp.MustCompile(`(?m)^\s+\w+\s+Hash = 0x[0-9a-f]+\s+// (\S+)$`)
+
+func c03HashNames(repo string) []string {
+	b, err := os.ReadFile(filepath.Join(repo, "html", "hash.go"))
+	if err != nil {
+		return nil
+	}
+	var out []string
+	for _, m := range c03HashNameRe.FindAllSubmatch(b, -1) {
+		out = append(out, string(m[1]))
+	}
+	sort.Strings(out)
+	return out
+}
+
+func c03ContextDocs(c *Ctx) (names []string, docs [][]byte) {
+	all := append(c03HashNames(c.Repo), "my-el", "foo", "x-y")
+	elems := []string{"p", "li", "dt", "dd", "rb", "rt", "rtc", "rp", "optgroup", "option", "thead", "tbody", "tfoot", "tr", "td", "th", "colgroup", "caption", "html", "head", "body", "pre", "template", "select", "script", "style"}
+	add := func(s string) {
+		docs = append(docs, []byte(s))
+		names = append(names, h.Q([]byte(s)))
+	}
+	for _, e := range elems {
+		for _, n := range all {
+			for _, sp := range []string{"", " "} {
+				if !c.Thorough() && c.Rng.Intn(6) != 0 {
+					continue
+				}
+				add("<" + e + ">x</" + e + ">" + sp + "<" + n + ">y")
+				add("<" + n + "><" + e + ">x </" + e + ">" + sp + "</" + n + "> z")
+				add("a <" + n + "> b </" + n + "> c<" + e + ">" + sp + "<" + n + "></" + n + "></" + e + ">")
+			}
+		}
+		for _, nx := range []string{"", " ", "text", " text", "<!-- c -->", "<!-- c --><" + e + ">", " <!-- c --> <option>", "<svg></svg>", "<math></math>"} {
+			add("<" + e + ">x</" + e + ">" + nx)
+			add("<div><" + e + " id=i>x </" + e + ">" + nx + "</div>")
+		}
+	}
+	// attributes: every name known to ToHash on a spread of tags with a spread of values
+	tags := []string{"a", "div", "input", "script", "style", "link", "form", "button", "td", "col", "area", "meta", "my-el", "img", "iframe", "object", "embed", "source"}
+	vals := []string{"", "x", " x ", "a  b", "text/javascript", "TEXT/CSS", "get", "one", "rect", "all", "submit", "text", "http://A/b", "HTTPS://x", "data:,x", "on", "radio", "application/x-www-form-urlencoded", "it's \"q\"", "a&amp;b", "&lt;", "javascript:f()"}
+	for _, a := range all {
+		for _, t := range tags {
+			if !c.Thorough() && c.Rng.Intn(8) != 0 {
+				continue
+			}
+			v := vals[c.Rng.Intn(len(vals))]
+			add("<" + t + " " + a + "=\"" + strings.ReplaceAll(v, "\"", "&quot;") + "\">")
+			add("<" + t + " " + a + "='" + strings.ReplaceAll(v, "'", "&#39;") + "' " + a + ">x</" + t + ">")
+		}
+	}
+	return
+}
